@@ -62,6 +62,15 @@ def collect_streams(sc):
     return {"id": sc["id"], "streams": streams, "seq": seq, "seqopt_none": opt is None, "seqopt": opt if opt is not None else 0}
 
 
+class DummySolver:
+    """Stands for a sub-solver in synthetic scenarios (the parent only passes its bound methods to Process)."""
+
+    def solve_and_queue(self, *a):
+        pass
+
+    minimize_and_queue = maximize_and_queue = solve_and_queue
+
+
 class FakeProcess:
     def __init__(self, target=None, args=()):
         pass
@@ -99,7 +108,7 @@ def replay_one(sc, streams, order):
         def empty(self):
             return True
 
-    solvers, _ = make_solvers(sc)
+    solvers = [DummySolver() for _ in streams] if sc.get("synthetic") else make_solvers(sc)[0]
     mps.Queue = FakeQueue
     mps.Process = FakeProcess
     m = mps.MultiprocessingSolver(solvers, log_level="ERROR")
